@@ -276,6 +276,7 @@ def main():
         "distribution": stats, "samples": summ[:1] + summ_a[:1]})
     v.assumptions = ["A-side kernels Fuzzy/ART2A in the exact regime; other kernels share the kernel-abstract theorem",
                      "ARTMAP with max_iter = 1"]
+    v.cov["added_after_wave_7"] = 'histories with refused partial_fit batches (non-integral / wrong-length / NaN targets) before every second incremental call; map and label vectors judged right after the refusal'
     sys.exit(v.finish())
 
 
